@@ -597,23 +597,46 @@ func DefaultSorter(callee *ssa.Function) bool {
 // dominated by such a sorter call; closures capturing the variable must be
 // the comparator of that sorter.
 func memSortedBeforeUse(p *Prog, l *MapLoop, al *ssa.Alloc, cfg *OrderCfg) LoopClass {
-	pos := l.Range.Pos()
 	if al.Referrers() == nil {
 		return LoopClass{}
+	}
+	c, calls := allocSortedBeforeUse(p, al, func(in ssa.Instruction) bool {
+		if l.Body[in.Block()] {
+			return true
+		}
+		if st, ok := in.(*ssa.Store); ok && st.Addr == ssa.Value(al) && !instrReaches(l, st) {
+			return true // initialisation before the loop
+		}
+		return false
+	}, cfg)
+	c.Pos = l.Range.Pos()
+	l.SortCalls = append(l.SortCalls, calls...)
+	return c
+}
+
+// AllocSortedBeforeUse: every use of the slice variable al (other than those
+// selected by skip) is the first argument of a sorter or is dominated by that
+// sorter call. Returns the verdict ("" Kind = fine) and the sorter calls.
+func AllocSortedBeforeUse(p *Prog, al *ssa.Alloc, skip func(ssa.Instruction) bool, cfg *OrderCfg) (LoopClass, []*ssa.Call) {
+	return allocSortedBeforeUse(p, al, skip, cfg)
+}
+
+func allocSortedBeforeUse(p *Prog, al *ssa.Alloc, skip func(ssa.Instruction) bool, cfg *OrderCfg) (LoopClass, []*ssa.Call) {
+	var pos token.Pos
+	var calls []*ssa.Call
+	if al.Referrers() == nil {
+		return LoopClass{}, nil
 	}
 	var sortCall ssa.Instruction
 	var others []ssa.Instruction
 	var closures []*ssa.MakeClosure
 	for _, r := range *al.Referrers() {
-		if l.Body[r.Block()] {
+		if skip(r) {
 			continue
 		}
 		switch x := r.(type) {
 		case *ssa.DebugRef:
 		case *ssa.Store:
-			if x.Addr == ssa.Value(al) && !instrReaches(l, x) {
-				continue // initialisation before the loop
-			}
 			others = append(others, x)
 		case *ssa.MakeClosure:
 			closures = append(closures, x)
@@ -657,21 +680,21 @@ func memSortedBeforeUse(p *Prog, l *MapLoop, al *ssa.Alloc, cfg *OrderCfg) LoopC
 	}
 	if sortCall == nil {
 		if len(others) == 0 && len(closures) == 0 {
-			return LoopClass{}
+			return LoopClass{}, nil
 		}
 		where := "?"
 		if len(others) > 0 {
 			where = p.Rel(others[0].Pos())
 		}
-		return LoopClass{Kind: "order-sensitive", Pos: pos, Detail: "the slice collected in map order is used unsorted at " + where}
+		return LoopClass{Kind: "order-sensitive", Pos: pos, Detail: "the slice collected in map order is used unsorted at " + where}, nil
 	}
 	for _, o := range others {
 		if !instrDominates(sortCall, o) {
-			return LoopClass{Kind: "order-sensitive", Pos: pos, Detail: fmt.Sprintf("the slice collected in map order is used at %s before it is sorted", p.Rel(o.Pos()))}
+			return LoopClass{Kind: "order-sensitive", Pos: pos, Detail: fmt.Sprintf("the slice collected in map order is used at %s before it is sorted", p.Rel(o.Pos()))}, nil
 		}
 	}
 	if k, ok := sortCall.(*ssa.Call); ok {
-		l.SortCalls = append(l.SortCalls, k)
+		calls = append(calls, k)
 	}
 	for _, mc := range closures {
 		isCmp := false
@@ -681,10 +704,10 @@ func memSortedBeforeUse(p *Prog, l *MapLoop, al *ssa.Alloc, cfg *OrderCfg) LoopC
 			}
 		}
 		if !isCmp && !instrDominates(sortCall, mc) {
-			return LoopClass{Kind: "order-sensitive", Pos: pos, Detail: fmt.Sprintf("the slice collected in map order is captured by a closure at %s before it is sorted", p.Rel(mc.Pos()))}
+			return LoopClass{Kind: "order-sensitive", Pos: pos, Detail: fmt.Sprintf("the slice collected in map order is captured by a closure at %s before it is sorted", p.Rel(mc.Pos()))}, nil
 		}
 	}
-	return LoopClass{}
+	return LoopClass{}, calls
 }
 
 // instrReaches: the instruction lies in or after the loop (it is not
@@ -709,6 +732,10 @@ func namedOf(t types.Type) *types.Named {
 // uniqueProjection: the projection path of the collected element type differs
 // for every two distinct map entries: listed in the table, or the loop fills
 // that field of the collected element from the range key.
+func UniqueProjection(l *MapLoop, cfg *OrderCfg, elem types.Type, path string) bool {
+	return uniqueProjection(l, cfg, elem, path)
+}
+
 func uniqueProjection(l *MapLoop, cfg *OrderCfg, elem types.Type, path string) bool {
 	if nm := namedOf(elem); nm != nil {
 		if _, ok := cfg.UniqueFields[nm.Obj().Name()+path]; ok {
